@@ -538,3 +538,205 @@ def private_parts(ctx: Ctx, f) -> "list[tuple[Any, dict[str, str]]]":
             amap.update({k.arg: norm(k.value) for k in c.keywords if k.arg})
             out.append((g, amap))
     return out
+
+
+# ---- possibly-undefined locals (UnboundLocalError): mypy's opt-in diagnostic as a fact, with two repository idioms discharged ------
+
+
+def _regex_widths(items: Any, cap: int = 200) -> set[int]:
+    """All total widths (in characters) of strings a parsed regex fragment can match, up to `cap`."""
+    import re
+
+    C = re._constants  # type: ignore[attr-defined]
+    acc = {0}
+    for op, av in items:
+        if op in (C.LITERAL, C.NOT_LITERAL, C.IN, C.ANY):
+            ws = {1}
+        elif op is C.SUBPATTERN:
+            ws = _regex_widths(av[3], cap)
+        elif op is C.BRANCH:
+            ws = set()
+            for alt in av[1]:
+                ws |= _regex_widths(alt, cap)
+        elif op in (C.MAX_REPEAT, C.MIN_REPEAT):
+            lo, hi, sub = av
+            sw = _regex_widths(sub, cap)
+            ws = set()
+            cur = {0}
+            n = 0
+            top = cap if hi is C.MAXREPEAT else hi
+            while n <= top and cur:
+                if n >= lo:
+                    ws |= cur
+                cur = {a + b for a in cur for b in sw if a + b <= cap}
+                n += 1
+                if n > cap:
+                    break
+        elif op is C.AT:
+            ws = {0}
+        else:
+            raise AnalysisError(f"unsupported regex token {op}")
+        acc = {a + b for a in acc for b in ws if a + b <= cap}
+    return acc
+
+
+def payload_lengths(ctx: Ctx, code: str) -> set[int] | None:
+    """Payload lengths in bytes admitted by the code's regexes in CODES_SCHEMA (all verbs)."""
+    import re
+
+    sch = ctx.const("ramses_tx.ramses", "CODES_SCHEMA")
+    row = sch.get(code) if hasattr(sch, "get") else None
+    if not row:
+        return None
+    out: set[int] = set()
+    for k, v in row.items():
+        pat = getattr(v, "pattern", v)
+        if not isinstance(pat, str) or not k.strip() in ("I", "RQ", "RP", "W"):
+            continue
+        try:
+            ws = _regex_widths(list(re._parser.parse(pat)))  # type: ignore[attr-defined]
+        except Exception:  # noqa: BLE001
+            return None
+        out |= {w // 2 for w in ws if w % 2 == 0}
+    return out or None
+
+
+def _eval_len_test(t: ast.expr, L: int, subj: str = "msg.len") -> bool | None:
+    if isinstance(t, ast.BoolOp):
+        vals = [_eval_len_test(v, L, subj) for v in t.values]
+        if isinstance(t.op, ast.And):
+            return False if any(v is False for v in vals) else (True if all(v is True for v in vals) else None)
+        return True if any(v is True for v in vals) else (False if all(v is False for v in vals) else None)
+    if isinstance(t, ast.UnaryOp) and isinstance(t.op, ast.Not):
+        v = _eval_len_test(t.operand, L, subj)
+        return None if v is None else not v
+    if isinstance(t, ast.Compare) and len(t.ops) == 1 and norm(t.left) == subj:
+        try:
+            rhs = ast.literal_eval(t.comparators[0])
+        except Exception:  # noqa: BLE001
+            return None
+        op = t.ops[0]
+        try:
+            return {ast.Eq: lambda: L == rhs, ast.NotEq: lambda: L != rhs, ast.Lt: lambda: L < rhs, ast.LtE: lambda: L <= rhs, ast.Gt: lambda: L > rhs, ast.GtE: lambda: L >= rhs, ast.In: lambda: L in rhs, ast.NotIn: lambda: L not in rhs}[type(op)]()
+        except Exception:  # noqa: BLE001
+            return None
+    return None
+
+
+def _defined_on_all_paths(fn: ast.AST, name: str, use_line: int, L: int | None) -> bool:
+    """Abstractly runs the function body tracking only 'is `name` bound' (tests on msg.len are evaluated for the given length,
+    every other test takes both arms): True when no path reaches the use with the name unbound."""
+    bad = [False]
+
+    def binds(st: ast.stmt) -> bool:
+        for x in ast.walk(st):
+            if isinstance(x, ast.Name) and x.id == name and isinstance(x.ctx, ast.Store):
+                return True
+        return False
+
+    def uses_here(node: ast.AST) -> bool:
+        return any(isinstance(x, ast.Name) and x.id == name and isinstance(x.ctx, ast.Load) and x.lineno == use_line for x in ast.walk(node))
+
+    def run(body: list[ast.stmt], states: set[bool]) -> set[bool]:
+        for st in body:
+            if not states:
+                return states
+            if isinstance(st, ast.If):
+                if uses_here(st.test) and False in states:
+                    bad[0] = True
+                v = _eval_len_test(st.test, L) if L is not None else None
+                outs: set[bool] = set()
+                if v is not False:
+                    outs |= run(st.body, set(states))
+                if v is not True:
+                    outs |= run(st.orelse, set(states))
+                states = outs
+            elif isinstance(st, (ast.For, ast.AsyncFor, ast.While)):
+                hdr = st.iter if not isinstance(st, ast.While) else st.test
+                if uses_here(hdr) and False in states:
+                    bad[0] = True
+                inner = set(states)
+                if not isinstance(st, ast.While) and binds(ast.Expr(value=st.target)):  # type: ignore[arg-type]
+                    inner = {True}
+                after = run(st.body, inner)
+                states = states | after | run(st.orelse, states | after)
+            elif isinstance(st, ast.Try):
+                b = run(st.body, set(states))
+                h: set[bool] = set()
+                for hd in st.handlers:
+                    h |= run(hd.body, states | b)
+                e = run(st.orelse, b) if st.orelse else b
+                states = e | h
+                if st.finalbody:
+                    states = run(st.finalbody, states)
+            elif isinstance(st, (ast.With, ast.AsyncWith)):
+                states = run(st.body, states)
+            elif isinstance(st, (ast.Return, ast.Raise)):
+                if uses_here(st) and False in states:
+                    bad[0] = True
+                return set()
+            elif isinstance(st, (ast.FunctionDef, ast.AsyncFunctionDef, ast.ClassDef)):
+                continue
+            else:
+                if uses_here(st) and False in states and not (isinstance(st, (ast.Assign, ast.AnnAssign)) and binds(st) and not any(isinstance(x, ast.Name) and x.id == name and isinstance(x.ctx, ast.Load) for x in ast.walk(st))):
+                    bad[0] = True
+                if binds(st):
+                    states = {True}
+        return states
+
+    run(list(fn.body), {False})  # type: ignore[attr-defined]
+    return not bad[0]
+
+
+def undefined_locals_rule(ctx: Ctx, rr: RuleResult, funcs: Iterable[FuncInfo], what: str) -> int:
+    """Every read of a possibly-unbound local (mypy `possibly-undefined`, kept as a fact by typefacts.py) inside `funcs` is an
+    UnboundLocalError waiting for the input that takes the unbinding path. Discharged when the binding is proven for every payload
+    length the code's regexes admit (parsers branch on msg.len), or when definition and use sit under the same constant flag."""
+    fset = set(funcs)
+    by_mod = {m.rel: m for m in ctx.repo.modules.values()}
+    n = 0
+    seen: set[tuple[str, str]] = set()
+    for rel, line, name in ctx.tf.undefined:
+        m = by_mod.get(rel)
+        if m is None:
+            continue
+        cands = [f for f in ctx.repo.funcs.values() if f.module is m and f.node.lineno <= line <= (f.node.end_lineno or f.node.lineno)]
+        if not cands:
+            continue
+        f = max(cands, key=lambda g: g.node.lineno)
+        if f not in fset or (f.qualname, name) in seen:
+            continue
+        seen.add((f.qualname, name))
+        n += 1
+        rr.instances += 1
+        rr.nontrivial += 1
+        lines = sorted(ln for r2, ln, n2 in ctx.tf.undefined if r2 == rel and n2 == name and f.node.lineno <= ln <= (f.node.end_lineno or 0))
+        why = None
+        code = f.name[len("parser_"):].upper() if f.name.startswith("parser_") else None
+        lens = payload_lengths(ctx, code) if code else None
+        if lens:
+            if all(_defined_on_all_paths(f.node, name, ln, L) for ln in lines for L in sorted(lens)):
+                why = f"bound on every path for each payload length the {code} regexes admit ({sorted(lens)[:8]}{'...' if len(lens) > 8 else ''})"
+        if why is None:
+            # definition(s) and use(s) under the same module-constant flag
+            uses = [x for x in own_nodes(f.node) if isinstance(x, ast.Name) and x.id == name and isinstance(x.ctx, ast.Load) and x.lineno in lines]
+            defs = [x for x in own_nodes(f.node) if isinstance(x, ast.Name) and x.id == name and isinstance(x.ctx, ast.Store)]
+
+            def flag_of(x: ast.AST) -> str | None:
+                p = getattr(x, "parent", None)
+                c = x
+                while p is not None and p is not f.node:
+                    if isinstance(p, ast.If) and c in p.body and isinstance(p.test, ast.Name) and p.test.id.isupper() or (isinstance(p, ast.If) and c in p.body and isinstance(p.test, ast.Name) and p.test.id.startswith("_DBG")):
+                        return p.test.id  # type: ignore[union-attr]
+                    c, p = p, getattr(p, "parent", None)
+                return None
+
+            fu = {flag_of(u) for u in uses}
+            fd = {flag_of(d) for d in defs}
+            if len(fu) == 1 and None not in fu and fu == fd:
+                why = f"definition and use both sit under the module constant {next(iter(fu))}"
+        if why:
+            rr.ok({"local": f"{f.short}: {name}", "discharged_by": why})
+        else:
+            rr.fail(f"{f.short}:unbound-local:{name}", f"{rel}:{lines[0]}", f"`{name}` is read in {f.short} on a path where it was never bound (UnboundLocalError can leave {what}): a branch chain that binds it does not cover every input" + (f" - the {code} regexes admit payload lengths {sorted(lens)}" if lens else ""))
+    return n
